@@ -25,8 +25,12 @@ __CPROVER_requires(n <= MAXLEN && __CPROVER_r_ok(a, n) && __CPROVER_r_ok(b, n))
 __CPROVER_assigns()
 __CPROVER_ensures((RET == 0 && g_k < n) ==> ((const char *)a)[g_k] == ((const char *)b)[g_k]);
 /* strncmp(a,b,n): reads both arguments up to n bytes or up to the first NUL of either */
+/* b is either readable for n bytes or a NUL-terminated string (the callers pass literals): strncmp never reads past a NUL */
+#define VS_CSTR_OK(b, n) (__CPROVER_r_ok(b, n) || (__CPROVER_OBJECT_SIZE(b) > (size_t)__CPROVER_POINTER_OFFSET(b) \
+     && __CPROVER_r_ok(b, __CPROVER_OBJECT_SIZE(b) - (size_t)__CPROVER_POINTER_OFFSET(b)) \
+     && (b)[__CPROVER_OBJECT_SIZE(b) - (size_t)__CPROVER_POINTER_OFFSET(b) - 1] == 0))
 int vs_strncmp(const char *a, const char *b, size_t n)
-__CPROVER_requires(n <= MAXLEN && __CPROVER_r_ok(a, n) && __CPROVER_r_ok(b, n))
+__CPROVER_requires(n <= MAXLEN && __CPROVER_r_ok(a, n) && VS_CSTR_OK(b, n))
 __CPROVER_assigns();
 /* strtod: abstract numeral scanner.  g_w is a ghost witness: a byte that cannot be part of a numeral must exist
    inside the object at p[g_w] (otherwise the scan leaves the object); *end lands in [p, p+g_w]. */
